@@ -301,6 +301,48 @@ def history_case(ctx, idx, rng):
              sample={'model': h.name, 'L': h.L, 'history': h.hist})
 
 
+def soak_case(ctx, idx, rng):
+    """The repository's own tests under the class invariant: every MPS/MPO returned or updated by a public operation is inspected."""
+    from .. import soak
+
+    def inv_of(o):
+        if isinstance(o, ptn.MPS):
+            return refs.mps_invariant(o)
+        if isinstance(o, ptn.MPO):
+            return refs.mpo_invariant(o)
+        return None
+
+    def returns(name):
+        def around(orig, *a, **k):
+            r = orig(*a, **k)
+            inv = inv_of(r)
+            ctx.ok('soak.invariant-of-result', inv is None, f'{name} (called from the test-suite) returned an object violating the invariant: {inv}', {'function': name}, in_situ=True)
+            return r
+        return around
+
+    def updates(name, pos):
+        def around(orig, *a, **k):
+            target = a[pos]
+            nonzero = isinstance(target, ptn.MPS) and all(x is not None for x in target.A) and float(np.linalg.norm(refs.dense_state(target.A))) > 1e-8 \
+                if isinstance(target, ptn.MPS) and np.prod([len(target.qd)] * max(len(target.A), 1)) <= 4096 else False
+            ends = (np.array(target.qD[0], copy=True), np.array(target.qD[-1], copy=True)) if hasattr(target, 'qD') else None
+            r = orig(*a, **k)
+            inv = inv_of(target)
+            ctx.ok('soak.invariant-of-updated-object', inv is None, f'{name} (called from the test-suite) left its target violating the invariant: {inv}', {'function': name}, in_situ=True)
+            if nonzero and ends is not None:
+                ctx.ok('soak.total-charge-kept', np.array_equal(target.qD[0], ends[0]) and np.array_equal(target.qD[-1], ends[1]),
+                       f'{name} changed the boundary quantum numbers', {'function': name}, in_situ=True)
+            return r
+        return around
+    att = [(f, returns(f)) for f in ('pytenet.mps.add_mps', 'pytenet.mpo.add_mpo', 'pytenet.mpo.multiply_mpo', 'pytenet.operation.apply_operator',
+                                     'pytenet.mpo.MPO.from_opgraph', 'pytenet.mpo.MPO.identity', 'pytenet.mps.MPS.from_vector')]
+    att += [(f, updates(f, 0)) for f in ('pytenet.mps.MPS.orthonormalize', 'pytenet.mps.MPS.compress', 'pytenet.mpo.MPO.orthonormalize')]
+    att += [(f, updates(f, 1)) for f in ('pytenet.evolution.integrate_local_singlesite', 'pytenet.evolution.integrate_local_twosite',
+                                         'pytenet.minimization.calculate_ground_state_local_singlesite', 'pytenet.minimization.calculate_ground_state_local_twosite')]
+    ctx.case(('soak', 'repository-test-suite'), nontrivial=True, sample={'functions_monitored': [f for f, _ in att]})
+    soak.run_suite(ctx, att)
+
+
 SPEC = {
     'id': 'C02',
     'rule': ('histories: a pool of MPS/MPO objects of one model (XXZ, spin-1 XXZ, Bose-Hubbard d=3, Fermi-Hubbard with encoded charge pairs, Ising) '
@@ -312,6 +354,7 @@ SPEC = {
     'deciding': ['history.class-invariant', 'history.shadow-model', 'history.total-charge-kept'],
     'workloads': [
         Workload('histories', history_case, quick=600, thorough=12000),
+        Workload('suite-soak', soak_case, quick=0, thorough=1, shardable=False),
     ],
     'shards': {'quick': 4, 'thorough': 16},
     'assumptions': ['shadow dense model advanced with numpy; tolerance 1e-9 relative'],
